@@ -225,7 +225,7 @@ def ptr_offset_from(m, st, inst, args, t):
         raise Unanalysable("offset_from on non-buffer pointers")
     pb = m.p.ptr_bytes * 8
     unsigned = inst["npath"].endswith("unsigned")
-    d = sym_add(m.addr_of(a[1], pb), m.addr_of(b[1], pb), -1, pb, not unsigned)
+    d = sym_add(m.addr_of(a[1], pb, st), m.addr_of(b[1], pb, st), -1, pb, not unsigned)
     if unsigned:
         ok = m.decide_sym_cmp(st, "Ge", d, mk_int(0, pb))
         m.oblige(st, "offset_from_unsigned", ok, "offset_from_unsigned with smaller first operand")
